@@ -6,7 +6,7 @@ AmtsNat == {0, 1, 2}
 AmtsBit == {0, 1}
 AmtsInt == -2..2
 AmtsExt == {-8, -7, -1, 0, 1, 7}      \* scaled by 2^60 in the driver: -8 is MinInt64
-AmtsSim == {-1, 0, 1, 2, 3}
+AmtsSim == {-1, 0, 3}
 MinFree == -1000   \* identity embedding: no overflow reachable
 MaxFree == 1000
 MinS == -8          \* scaled embedding v -> v * 2^60: exactly the int64 range
